@@ -48,52 +48,60 @@ META = {
         "(or proved it equal, or passed the item through a one-level helper that does so). "
         "(R2) Every element inserted by the Tree methods and by deepcopy is constructed in the same function (or by every caller of "
         "a one-level helper) and inserted once; every deepcopy returns a freshly constructed object. "
-        "(R3) Every handle_* callback of the stdlib HTMLParser is overridden; every event produces its node - no path through the "
-        "callback or the Tree method it calls skips the construction under a condition a well-formed event can satisfy (payload "
-        "empty / white space only, judged per event against a table: `<!---->`, `<?>`, white-space data, tags without "
-        "attributes); its arguments reach the node constructor and the stored field unchanged; the render template of the node class each callback maps to (f-strings, +, locals bound once and "
-        "hoisted module constants inlined) re-emits exactly the delimiters the stdlib strips for that event - each table row is "
-        "re-verified against the installed html/parser.py and _markupbase.py (slice bounds, compared prefixes, terminator regexes "
-        "read as re._parser trees); convert_charrefs is False on the whole path; the void table used by handle_starttag contains "
-        "the 13 WHATWG void elements plus 'param'; attributes are written as name=\"value\" for every string value (a separate "
-        "branch for None is allowed, one selected by truthiness is not); values the stdlib unescapes must be re-escaped (known "
-        "finding), and an escaper (html.escape, saxutils.escape, .replace chains are read as the set of characters they "
-        "rewrite) may rewrite exactly & and \" - not ' < >, which are legal literally inside a double-quoted value. "
-        "(R4) With inplace false no mutating, iterating or returning use in strip() can see the element itself: aliases of self "
-        "are tracked through assignments and conditional expressions, only paths consistent with inplace == False count; deepcopy "
-        "does not write self; the constructor copies the attribute mapping. "
+        "(R3) Every handle_* callback of the stdlib HTMLParser and unknown_decl is overridden; the Tree calls of a callback are "
+        "followed through one private helper of the parser; every event produces its node (no path skips the construction under a "
+        "condition a well-formed event can satisfy); callback arguments reach the constructor and the stored field unchanged; the "
+        "render template of the node class (f-strings, +, locals bound once, hoisted constants, options that are falsy in a plain "
+        "render() call) re-emits exactly the delimiters the stdlib strips for that event - each table row is re-verified against "
+        "the installed html/parser.py and _markupbase.py. Start tags: Tag / VoidTag / XTag begin with a helper that returns a stored "
+        "field verbatim when it is not None, and the callbacks feed that field from self.get_starttag_text() - the start tag is a "
+        "copy of the source (quoting, references, white space, value-less and repeated attributes included); only when that path "
+        "is missing are the rebuilt template and Attribute.__str__ judged (name=\"value\" form, value None written bare, values "
+        "re-escaped with exactly & and \"). References: because html.parser reports &name / &#N whatever character ends them, the "
+        "node class that appends ';' may only be built behind a test of self.rawdata.startswith(';', start + len(prefix) + "
+        "len(name)) (start = the attribute an updatepos override sets), the other outcome stores prefix + name verbatim. Marked "
+        "sections: unknown_decl must write back '<![' and the terminator html.parser stripped (']]>' for its keyword set, ']>' "
+        "otherwise; both read from _markupbase.parse_marked_section). convert_charrefs is False on the whole path; the void "
+        "table contains the 13 WHATWG void elements plus 'param'. "
+        "(R4) With inplace false no mutating, iterating or returning use in strip() can see the element itself; deepcopy does not "
+        "write self; the constructor copies the attribute mapping. "
         "(R5) Writers of the open-element stack have a role derived from the callback map; the opening function, run symbolically "
         "with Tree helpers inlined, ends as [.., top] -> [.., top, new] with new appended to top; childless-node functions leave "
         "the stack unchanged; the closing function is run as a decision table over abstract stacks [Root, e1..] of depth 1-4 x every "
-        "name-match pattern (loops, enumerate, comprehensions / next() / min() searches, flags, early return are modelled) and must pop exactly down to the innermost match, nothing otherwise; a per-name counter consulted by "
-        "the closing function must be +1 at the push and -1 for every popped element (inductive invariant counter[n] == open n). "
+        "name-match pattern *including a root that carries the closing tag's name*: it must pop exactly down to the innermost "
+        "matching open element, nothing otherwise, and never the root; a per-name counter consulted by the closing function must be "
+        "+1 at the push and -1 for every popped element. "
         "(R6) No exception escapes tokenize_html, any overridden callback or Element.insert/__setitem__ (escape analysis; the "
         "HTMLParser.feed entry is discharged by the parse_marked_section override catching AssertionError). "
         "(R7) __iter__/walk are pre-order in list order, each element once; find() enumerates candidates in that order and its "
-        "candidate test - helper methods and lambdas inlined - agrees on a 192-row decision table (identifier is class/name, "
-        "matches or not, two abstract requested classes as token / substring-only / absent, 0-2 requested attributes with every "
-        "outcome, attrs None/{}) with: name and (classes is None or token-subset) and all attributes equal, yielded exactly once; the name rows are repeated for every node class the tag callbacks build (Tag, VoidTag, XTag), so a "
-        "name test narrowed by isinstance() to some of them is seen. "
-        "(R8) Every feed() of an HtmlToAst in the package goes to a parser constructed for that call (not cached, memoised or "
-        "module-level) unless feed() resets the inherited HTMLParser buffer first."
+        "candidate test - helper methods and lambdas inlined - agrees on a decision table (identifier is class/name, matches or "
+        "not, node class Tag/VoidTag/XTag, two abstract requested classes as token / substring-only / absent, 0-2 requested "
+        "attributes each present-and-equal / present-but-different / absent-while-''-requested / absent) with: name and (classes "
+        "is None or token-subset) and every requested attribute present and equal, yielded exactly once. "
+        "(R8) Every feed() of an HtmlToAst in the package goes to a parser constructed for that call unless feed() resets the "
+        "inherited HTMLParser buffer first. "
+        "(R9) The parser nests elements without a depth bound, so a traversal visible from the container element must not call "
+        "itself once per nesting level: walk, deepcopy, strip and Tag.render do (four known findings, RecursionError from a few "
+        "hundred levels)."
     ),
     "not_decided": (
         "exact round trip as a value for every well-formed document (only the structural necessary conditions above); "
-        "normalisations inside the stdlib tokenizer that cannot be inverted from callback arguments (case of names, whitespace "
-        "inside tags, quote style, value-less attributes, marked sections, bogus comments) - listed in the evidence, outside the "
-        "property's well-formed grammar; implicit IndexError/TypeError of arbitrary expressions beyond the decision tables; "
-        "input that ends inside an unterminated construct (flushed as data by the close() call in feed(); not well-formed, no clause here); recursion depth of render/walk/find/strip/deepcopy on pathologically deep trees (a runtime quantity: ~1000 nested elements raise RecursionError; parsing itself is iterative); legacy void elements other than 'param' "
-        "(basefont, bgsound, frame, keygen are not in the table today)"
+        "what get_starttag_text() returns (trusted: the source slice of the start tag); end tags are rebuilt from the lower-cased "
+        "name, so `</DIV>` / `</div >` come back as `</div>` (outside the well-formed grammar); bogus comments and other "
+        "non-canonical emissions of the tokenizer (listed in the evidence); input that ends inside an unterminated construct "
+        "(flushed as data by close() in feed(); C17's subject); the selector of the marked-section terminator beyond its keyword "
+        "set (how the keyword is cut out of the reported text); legacy void elements other than 'param'; the exact recursion "
+        "limit (R9 reports the recursive traversals, not the depth at which they fail)"
     ),
     "trusted_base": [
         "CPython ast and re._parser",
-        "stdlib html/parser.py and _markupbase.py as installed (parsed, not imported)",
+        "stdlib html/parser.py and _markupbase.py as installed (parsed, not imported); HTMLParser.get_starttag_text()",
         "collections.abc.MutableSequence mix-ins (append/extend/+= go through insert)",
         "the engine's escape analysis incl. its discharge of HTMLParser.feed via the parse_marked_section override",
         "the tables in the module: delimiters per event, which payloads can be empty/blank per event, WHATWG void elements + 'param', characters an attribute escaper may rewrite",
     ],
     "assumptions": [
-        "HTMLParser never reports an empty end-tag name, and tokenize_html is used with the default root name '' (so Root never matches a closing tag and is never popped)",
+        "HTMLParser never reports an empty end-tag name",
         "decision tables are exhaustive for the modelled outcomes: stacks up to depth 4, two requested classes, up to two requested attributes (the code is uniform in these sizes)",
     ],
 }
@@ -843,9 +851,12 @@ class Emit:
             def visit_Name(self, node):
                 return mapping.get(node.id, node) if isinstance(node.ctx, ast.Load) else node
 
-        import copy
+        return Sub().visit(_clone(e))
 
-        return Sub().visit(copy.deepcopy(e))
+
+def _clone(e: ast.expr) -> ast.expr:
+    """A fresh copy of an expression, without the corpus' parent / module links (a generic deep copy would follow them)."""
+    return ast.parse(ast.unparse(e), mode="eval").body
 
 
 def _actual(call: ast.Call, callee: FunctionInfo, pname: str) -> ast.expr | None:
@@ -1163,7 +1174,7 @@ def _expand_start_helper(P: Ctx, helper: FunctionInfo, call: ast.Call, roles: di
     fallback = None
     for r in rets:
         gs = cfg.guards(r)
-        if _is_self_attr(r.value) and any(pol and isinstance(t, ast.Compare) and len(t.ops) == 1 and isinstance(t.ops[0], ast.IsNot) and unparse(t.left) == unparse(r.value) and isinstance(t.comparators[0], ast.Constant) and t.comparators[0].value is None for t, pol in gs):
+        if _is_self_attr(r.value) and any(isinstance(t, ast.Compare) and len(t.ops) == 1 and isinstance(t.ops[0], (ast.IsNot, ast.Is)) and pol == isinstance(t.ops[0], ast.IsNot) and unparse(t.left) == unparse(r.value) and isinstance(t.comparators[0], ast.Constant) and t.comparators[0].value is None for t, pol in gs):
             if rawfield is not None:
                 raise Unsupported(f"{helper.fq}: several verbatim returns")
             rawfield = r.value.attr
@@ -1261,7 +1272,7 @@ def _judge_shape(P: Ctx, rep: Report, key: str, ci: ClassInfo, expected: list, e
 
 @rule("C16.R3")
 def r3_callbacks_and_delimiters(corpus: Corpus, rep: Report, tier: str):
-    rep.rule("C16.R3", "every HTMLParser callback is overridden; each maps to a node class whose render re-emits exactly what the stdlib stripped; values arrive verbatim; void set; charrefs kept; attribute escaping")
+    rep.rule("C16.R3", "every HTMLParser callback is overridden and produces its node; each node class re-emits exactly what the stdlib stripped (start tags from the source text, ';' only where the source has one, marked-section brackets); values arrive verbatim; void set; charrefs kept")
     P = _ctx(corpus)
     hp, mb, std = _stdlib(corpus)
     rep.saw_sibling(hp.rel)
@@ -1415,7 +1426,7 @@ def _judge_reference(P: Ctx, rep: Report, cb: FunctionInfo, name: str, pre: str,
     if not (len(G.args) == 2 and isinstance(G.args[0], ast.Constant) and G.args[0].value == suf):
         problems.append(f"the test looks for {unparse(G.args[0]) if G.args else '?'} instead of {suf!r}")
     else:
-        off = A.to_cb_terms(G.args[1])
+        off = A.to_cb_terms(_inline_locals(G.args[1], A.site_fi()))
         terms = []
         work = [off]
         while work:
@@ -1554,8 +1565,6 @@ def _judge_marked_sections(P: Ctx, rep: Report, cbmap: dict, mb) -> None:
 
 def _inline_locals(e: ast.expr, fi: FunctionInfo) -> ast.expr:
     """Replace locals of ``fi`` that are bound once (outside loops) by their value expression, recursively."""
-    import copy
-
     def value_of(name: str):
         b = _bindings(fi, name)
         if len(b) == 1 and isinstance(b[0], (ast.Assign, ast.AnnAssign)) and b[0].value is not None and name not in fi.params:
@@ -1570,12 +1579,12 @@ def _inline_locals(e: ast.expr, fi: FunctionInfo) -> ast.expr:
                 v = value_of(node.id)
                 if v is not None:
                     self.depth += 1
-                    out = self.visit(copy.deepcopy(v))
+                    out = self.visit(_clone(v))
                     self.depth -= 1
                     return out
             return node
 
-    return Sub().visit(copy.deepcopy(e))
+    return Sub().visit(_clone(e))
 
 
 def _eval_names(mod, e: ast.expr):
@@ -2423,7 +2432,7 @@ def _tree_callees(P: Ctx, fi: FunctionInfo) -> list[FunctionInfo]:
 
 @rule("C16.R5")
 def r5_stack_discipline(corpus: Corpus, rep: Report, tier: str):
-    rep.rule("C16.R5", "enclose pops nothing when no open element matches and the match depth otherwise; the opening-tag function pushes exactly the new element under the current top; other nest functions leave the stack alone")
+    rep.rule("C16.R5", "enclose pops nothing when no open element matches, the match depth otherwise, and never the root; the opening-tag function pushes exactly the new element under the current top; other nest functions leave the stack alone")
     P = _ctx(corpus)
     cbmap = _callback_map(P)
     void_attr, _ = _void_elements(P)
@@ -2520,6 +2529,20 @@ def r5_stack_discipline(corpus: Corpus, rep: Report, tier: str):
     rep.expect_min("C16.R5", 10, "8 stack writes + opening + 3 childless + 2 enclose obligations on the pinned tree")
 
 
+def _root_attr(P: Ctx) -> str | None:
+    """Tree attribute that holds the root element (assigned from a constructor call and pushed first)."""
+    for mn in ("__init__", "clear"):
+        f = P.tree.methods.get(mn)
+        if f is None:
+            continue
+        for n in walk_local(f.node):
+            tgt = n.targets[0] if isinstance(n, ast.Assign) and len(n.targets) == 1 else getattr(n, "target", None)
+            val = getattr(n, "value", None)
+            if isinstance(n, (ast.Assign, ast.AnnAssign)) and _is_self_attr(tgt) and isinstance(val, ast.Call) and P.hier_class_named(val.func, f) is not None:
+                return tgt.attr
+    return None
+
+
 class _Entry:
     """An abstract open element: all that enclose() may look at is whether its name equals the closing tag's."""
 
@@ -2539,6 +2562,8 @@ class _EncloseRun:
     def __init__(self, P: Ctx, fi: FunctionInfo, pattern: list[bool]):
         self.P, self.fi = P, fi
         self.stack = [_Entry(m, i) for i, m in enumerate(pattern)]
+        self.root = self.stack[0]
+        self.root_attr = _root_attr(P)
         self.name_param = [p for p in fi.params if p != "self"][0]
         self.env: dict[str, object] = {}
         self.pops = 0
@@ -2582,6 +2607,8 @@ class _EncloseRun:
             raise Unsupported(f"{self.fi.fq}: name {e.id}")
         if P.is_stack(e):
             return self.stack
+        if _is_self_attr(e) and self.root_attr and e.attr == self.root_attr:
+            return self.root  # the root element, which sits at the bottom of the stack
         if isinstance(e, ast.BinOp) and isinstance(e.op, (ast.Add, ast.Sub)):
             l, r = self.ev(e.left), self.ev(e.right)
             if isinstance(l, int) and isinstance(r, int):
@@ -2610,6 +2637,8 @@ class _EncloseRun:
                     if isinstance(ent, _Entry) and isinstance(op, (ast.Eq, ast.NotEq)):
                         return ent.matches if isinstance(op, ast.Eq) else not ent.matches
             lv, rv = self.ev(l), self.ev(r)
+            if isinstance(op, (ast.Is, ast.IsNot, ast.Eq, ast.NotEq)) and isinstance(lv, _Entry) and isinstance(rv, _Entry):
+                return (lv is rv) == isinstance(op, (ast.Is, ast.Eq))  # Element.__eq__ is identity
             if isinstance(op, (ast.Is, ast.IsNot)) and (lv is None or rv is None):
                 return (lv is rv) if isinstance(op, ast.Is) else (lv is not rv)
             if isinstance(lv, int) and isinstance(rv, int):
@@ -2802,14 +2831,15 @@ def _judge_enclose(P: Ctx, rep: Report, fi: FunctionInfo) -> None:
         raise Unsupported(f"{fi.fq}: stack writes other than pop()")
     if len([p for p in fi.params if p != "self"]) != 1:
         raise Unsupported(f"{fi.fq}: parameters {fi.params}")
-    bad_match = bad_nomatch = None
+    bad_match = bad_nomatch = bad_root = None
     used_counters = sorted({P.counter_of(x) for x in ast.walk(fi.node) if P.counter_of(x)})
     bad_counter: dict[str, str] = {}
     n_rows = 0
     for depth in range(1, 5):
-        for bits in range(2 ** (depth - 1)):
-            pattern = [False] + [bool(bits >> k & 1) for k in range(depth - 1)]
-            want = next((d for d, m in enumerate(reversed(pattern), start=1) if m), 0)
+        for bits in range(2 ** depth):
+            # bit 0: the root carries the closing tag's name (tokenize_html(text, name=...)); it is not an open element
+            pattern = [bool(bits >> k & 1) for k in range(depth)]
+            want = next((d for d, m in enumerate(reversed(pattern[1:]), start=1) if m), 0)
             run = _EncloseRun(P, fi, pattern)
             n_rows += 1
             try:
@@ -2837,6 +2867,11 @@ def _judge_enclose(P: Ctx, rep: Report, fi: FunctionInfo) -> None:
                     if decs:
                         what.append(f"{len(decs)} decrement(s) without a popped element")
                     bad_counter[c] = f"open elements {shape}: " + "; ".join(what)
+            if pattern[0]:
+                shape = shape.replace("[Root", "[Root (same name)", 1)
+                if wrong and bad_root is None:
+                    bad_root = f"open elements {shape}: {got}, expected {want}" + (" - the root itself is popped" if run.root in run.popped_entries else "")
+                continue
             if wrong:
                 msg = f"open elements {shape}: {got}, expected {want}"
                 if want and bad_match is None:
@@ -2855,6 +2890,11 @@ def _judge_enclose(P: Ctx, rep: Report, fi: FunctionInfo) -> None:
             rep.violation("C16.R5", key, site, f"{fi.qualname} decides from self.{c} but does not keep it equal to the number of open elements per name - {bad_counter[c]}: afterwards the counter still claims an open element that is gone, a later closing tag of that name passes the guard and the pop loop runs through the Root (IndexError: pop from an empty deque) or closes unrelated elements")
         else:
             rep.ok("C16.R5", key, site, "every pop is paired with one decrement keyed by the popped element's name, on every row")
+    key = f"{fi.fq}|the root is never treated as an open element"
+    if bad_root:
+        rep.violation("C16.R5", key, site, f"{fi.qualname}: {bad_root} - with tokenize_html(text, name=N) an end tag `</N>` closes every open element and the root; the next event finds an empty stack (IndexError in last()) or the rest of the text is attached nowhere")
+    else:
+        rep.ok("C16.R5", key, site, "rows in which the root carries the closing tag's name behave as if it did not")
     key = f"{fi.fq}|no open element matches: nothing is popped"
     if bad_nomatch:
         rep.violation("C16.R5", key, site, f"{fi.qualname}: {bad_nomatch} - a stray `</x>` closes open elements (up to the root: the next event then raises IndexError in last() and the remaining text is lost)")
@@ -2890,8 +2930,8 @@ def r6_totality(corpus: Corpus, rep: Report, tier: str):
         else:
             rep.items.append(it)
     rep.errors.extend(tmp.errors)
-    rep.assumed("C16.R6", "assumed|HTMLParser never reports an empty end-tag name", P.m.func("tokenize_html").site(), "endtagfind / tagfind_tolerant require a letter; with the default root name '' the Root is never matched by enclose(), so last() never sees an empty stack")
-    rep.expect_min("C16.R6", 2, "HTMLParser.feed catalogue entry + the tabled assumption")
+    rep.ok("C16.R6", "last() never sees an empty stack", P.m.func("tokenize_html").site(), "C16.R5: the closing function never pops the root (whatever name the root was given), every other function leaves at least what it found")
+    rep.expect_min("C16.R6", 2, "HTMLParser.feed catalogue entry + the stack-never-empty argument")
 
 
 def _is_link_assertion(P: Ctx, key: str) -> bool:
@@ -3987,6 +4027,13 @@ def mutants(corpus: Corpus):
         add("c16-revert-find-missing-attribute-is-not-empty-value", "C16.R7", ft.test, f"{unparse(cmp_.left)} != {unparse(cmp_.comparators[0]).strip('()').split(' or ')[0]}", "attrs filter")
     else:
         out.append(("c16-revert-find-missing-attribute-is-not-empty-value", "find() no longer tests the presence of the requested key"))
+    # 3911a89: the root counts as an open element again
+    rt = find_node(en, lambda n: isinstance(n, ast.BoolOp) and isinstance(n.op, ast.And) and any(isinstance(v, ast.Compare) and isinstance(v.ops[0], (ast.IsNot, ast.NotEq)) and "self." in unparse(v) for v in n.values))
+    if rt is not None:
+        keep = [v for v in rt.values if not (isinstance(v, ast.Compare) and isinstance(v.ops[0], (ast.IsNot, ast.NotEq)) and "self." in unparse(v))]
+        add("c16-revert-root-is-not-an-open-element", "C16.R5", rt, " and ".join(unparse(v) for v in keep), "the root is never treated")
+    else:
+        out.append(("c16-revert-root-is-not-an-open-element", "enclose() has no `is not <root>` conjunct"))
     # ---- R9 (class: a traversal that calls itself per nesting level)
     fy = find_node(E["find"], lambda n: isinstance(n, ast.Expr) and isinstance(n.value, ast.Yield))
     fit = find_node(E["find"], lambda n: isinstance(n, ast.Assign) and unparse(n.targets[0]) == "iterator" and "walk" in unparse(n.value))
